@@ -355,8 +355,19 @@ static void run_hist(const Args &a, long cs, const std::string &judged) {
 	if (r.coin(0.5)) add_custom_extents(r, s);
 	int naux = (int)r.below(4); for (int i = 0; i < naux; i++) s.aux.push_back({i == 1 ? "A_LONGER_KEYWORD" : "KEY" + std::to_string(i), i == 2 ? "3.5" : "value " + std::to_string(i)});
 	s.flavor = "hist";
-	std::unique_ptr<Table> T(new Table); if (!load(*T, s)) { viol(prop_id() + ":load:well-formed-table-rejected", s.full_json()); return; }
-	std::string hist; int nops = r.range(1, 5);
+	std::unique_ptr<Table> T(new Table); std::string hist; int startkind = (int)r.below(20);
+	if (startkind < 5) { // the table is born in a fit (no file behind it: extents, periods and the aux store are what fit leaves)
+		int fd = r.range(1, 2); std::vector<uint32_t> ord(fd), por(fd); std::vector<std::vector<double>> kn(fd), co(fd); std::vector<double> lam(fd); size_t npt = 1;
+		for (int d = 0; d < fd; d++) { ord[d] = (uint32_t)r.below(4); por[d] = (uint32_t)r.below(ord[d] + 1); kn[d] = gen_knots(r, ord[d], 2 * ord[d] + 2 + (int)r.below(4) + (d == 0 ? 1 : 0), 1, 1.0, r.U() * 4 - 2, true); int np = (int)kn[d].size() + 4; for (int i = 0; i < np; i++) co[d].push_back(kn[d][0] + (kn[d].back() - kn[d][0]) * (0.01 + 0.98 * (i + 0.5) / np)); npt *= np; lam[d] = 0.05; }
+		photospline::ndsparse data(npt, fd); std::vector<double> w(npt, 1.0); std::vector<unsigned> I(fd); for (size_t lin = 0; lin < npt; lin++) { size_t q = lin; for (int d = fd - 1; d >= 0; d--) { I[d] = (unsigned)(q % co[d].size()); q /= co[d].size(); } data.insertEntry(std::sin(0.37 * lin) + 1.5, I.data()); }
+		phase_log("history: fit"); hist += "fit(" + std::to_string(fd) + "d);"; try { T->fit(data, w, co, ord, kn, lam, por, Table::no_monodim, false); } catch (std::exception &e) { note("hist:fit-refused(skipped)"); return; } count("hist:tables-born-in-a-fit");
+	} else {
+		if (!load(*T, s)) { viol(prop_id() + ":load:well-formed-table-rejected", s.full_json()); return; }
+		if (startkind < 8 && nd <= 3 && tot <= 400) { // ... or by stacking copies of a loaded table along a new last dimension
+			int nl = r.range(2, 4); std::vector<Table *> lay(nl, T.get()); std::vector<double> zs; double z = -1.0; for (int i = 0; i < nl; i++) { zs.push_back(z); z += 0.5 + r.U(); }
+			phase_log("history: stacking constructor"); hist += "stack(" + std::to_string(nl) + ");"; std::unique_ptr<Table> S(new Table(lay, zs, r.range(1, std::min(3, nl)))); T = std::move(S); count("hist:tables-born-by-stacking"); }
+	}
+	int nops = r.range(1, 5);
 	for (int op = 0; op < nops; op++) {
 		switch (r.below(9)) {
 		case 0: case 1: { std::vector<size_t> p = rand_perm(r, T->get_ndim()); hist += "permute" + jarr(p) + ";"; phase_log("history: permuteDimensions"); T->permuteDimensions(p); break; }
